@@ -21,7 +21,7 @@ def run(path):
         print("not a replay record")
         return 2
     # in-process engine
-    if (prop in ("C11", "C12", "C18")) or (prop == "C15" and kind == "compile") or (prop == "C04" and kind == "runtime"):
+    if (prop in ("C11", "C12", "C18")) or (prop == "C15" and kind == "compile") or (prop == "C04" and kind == "runtime") or (prop == "C16" and kind == "history"):
         if not ws.build_tools(("front",)):
             return 2
         wd = os.path.join(ws.WORK, "replaytmp")
